@@ -22,7 +22,8 @@ RULE = ("histories of 6-24 ops over a universe of 3-7 identifiers drawn from typ
         "suffixes of one another (1, 10, 21, 1-, >1, 1:2 ...), ~7% with malformed ids (empty key/type), plus a few "
         "small histories (10 in the quick tier, 5% in the thorough tier) using keys that contain the separator '->'; ops = define/delete resource, define relationship "
         "(single, one-to-many), delete relationship, begin/commit/abort; shapes = random, chains with a closing edge, "
-        "diamonds; after every op the raw tables (transaction view and committed view) and parents / children / "
+        "diamonds, chain + ancestor-side define + extension + back edge without deletions in between; one Writer "
+        "value serves all operations outside / inside a transaction; after every op the raw tables (transaction view and committed view) and parents / children / "
         "parents-then-children / descendants of every identifier are compared. Non-trivial = at least 2 accepted "
         "relationships and (a refusal as cyclic or a resource deletion that removed an edge); distinct by hash.")
 TRUSTED = ["hook core/pkg/distribution/ontology/export_verif.go (VerifDescendants = dagWriter.retrieveDescendants, "
@@ -95,6 +96,25 @@ def gen_case(rng):
         a, b, c, d = rng.sample(u, 4)
         for f, t in ((a, b), (a, c), (b, d), (c, d), (d, a)):
             ops.append({"op": "defrel", "a": f, "b": t, "ty": "parent"})
+    elif shape < 0.5 and len(u) >= 4:
+        # through ONE writer and without deletions in between: a chain c0->..->cj, a define whose cycle
+        # check walks that chain from an ancestor (probe -> c0, or a one-to-many), an extension below
+        # the chain's end (cj -> e), then an edge from the new descendant back to an ancestor
+        ch = [i for i in u if i != ROOT]
+        rng.shuffle(ch)
+        if len(ch) >= 4:
+            ops += [{"op": "defres", "a": i} for i in ch if i not in defined]
+            j = rng.randrange(1, len(ch) - 2)
+            chain, e, probe = ch[:j + 1], ch[j + 1], ch[-1]
+            for a, b in zip(chain, chain[1:]):
+                ops.append({"op": "defrel", "a": a, "b": b, "ty": rng.choice(["parent", "parent", "x"])})
+            start = rng.choice(chain[:-1])
+            if rng.random() < 0.7:
+                ops.append({"op": "defrel", "a": probe, "b": start, "ty": "parent"})
+            else:
+                ops.append({"op": "defmany", "a": probe, "ty": "parent", "bs": [start] + ([e] if rng.random() < 0.3 else [])})
+            ops.append({"op": "defrel", "a": chain[-1], "b": e, "ty": "parent"})
+            ops.append({"op": "defrel", "a": e, "b": rng.choice(chain[:-1]), "ty": rng.choice(["parent", "x"])})
     for _ in range(rng.randrange(3, 14)):
         x = rng.random()
         if x < 0.50:
